@@ -118,7 +118,7 @@ func specC07() *propertySpec {
 			{"C07-R1", "init-is-reported: the value initialising the per-case PRNG is result #3 of findBug's failure return; other returns carry 0", ruleC07R1},
 			{"C07-R2", "first-case-is-base: per-case seed = accumulated seed + (valid+invalid), which is the seed parameter unchanged in iteration 0", ruleC07R2},
 			{"C07-R3", "chain: flags.seed → baseSeed → checkTB → doCheck → findBug → reproduce run → returned → printed with -rapid.seed=%d", ruleC07R3},
-			{"C07-R4", "whole-run-determinism: no nondeterminism source in the closure of doCheck except the listed time-dependent constructs", ruleC07R4},
+			{"C07-R4", "whole-run-determinism: no nondeterminism source in the closure of doCheck except the listed time-dependent constructs; the stream position (which counts draws of earlier test cases) is used only relatively (shared with C11-R3)", func(r *Run) { ruleC07R4(r); ruleStreamPositionRelative(r) }},
 		},
 	}
 }
